@@ -154,7 +154,12 @@ func checkApplyOpts(doc *JV, ops []Op, optmask int) {
 	if r.decErr != nil {
 		return
 	}
-	ref := refApply(doc, ops, ro, limit, sizeOf)
+	dup := doc.hasDupKeys()
+	refDoc := doc
+	if dup {
+		refDoc = dedupLast(doc)
+	}
+	ref := refApply(refDoc, ops, ro, limit, sizeOf)
 	if ro.AllowMissing && (ref.NegOff || ref.NaNOnArray) {
 		vx.Reach("apply/outside-domain")
 		return
@@ -165,7 +170,9 @@ func checkApplyOpts(doc *JV, ops []Op, optmask int) {
 	}
 	if ref.Err != eNone {
 		vx.Reach("apply/ref-fails")
-		vx.Assert(r.err != nil, "C01/fails-when-rfc-fails")
+		if !dup {
+			vx.Assert(r.err != nil, "C01/fails-when-rfc-fails")
+		}
 		vx.Assert(r.err != nil, "C08/error-returned")
 		vx.Assert(r.err != nil, "C13/fails-when-reference-fails")
 		if r.err == nil {
@@ -185,6 +192,12 @@ func checkApplyOpts(doc *JV, ops []Op, optmask int) {
 		return
 	}
 	vx.Reach("apply/ref-succeeds")
+	if dup {
+		// repeated member names: only success and the error classes are compared
+		vx.Assert(r.err == nil, "C08/no-error-when-all-ops-apply")
+		vx.Reach("apply/end")
+		return
+	}
 	vx.Assert(r.err == nil, "C01/succeeds-when-rfc-succeeds")
 	vx.Assert(r.err == nil, "C08/no-error-when-all-ops-apply")
 	vx.Assert(r.err == nil, "C12/no-error-within-limit")
